@@ -418,6 +418,7 @@ static J plan_c07(uint64_t seed, const std::string &tier, bool secrets, const st
       op["k"] = hash_kind(g, true); place(g, op, nobj, nslots); put_req(op, r);
       pre_scribble(g, op, 15, 25, 10);
       if (g.chance(1, 3)) { static const long e0[] = {22, 34, 12, 4, 1234, 2, 11}; op["errno0"] = e0[g.below(7)]; }   // errno is arbitrary at entry
+      if (g.chance(1, 8)) op["guard"] = 1;        // arguments end exactly at a page boundary, next page inaccessible
       if (g.chance(15, 100)) op["phin"] = 1;
       else if (secrets && g.chance(1, 30)) op["phout"] = 1;   // (erasure plans only: the result of such a call is nobody's promise)
       if (g.chance(15, 100)) op["stin"] = 1;
